@@ -4,7 +4,8 @@
 (*                                                                                                *)
 (* Direction 1 (library writes, reference reads).  Events of one archive:                          *)
 (*   Reset{dir=1,ver,shift,names}  Build{res}  RefOpen{header as decoded by MpqFormat}              *)
-(*   RefFile{name, want, std, lib, labels, ...}*  RefAbsent{name,res}*  RefList{names,want}  Done   *)
+(*   RefFile{name, want, std, devs, ...}*  RefLocFile{name, locale, want, std, entlocale, entplatform}*             *)
+(*   RefAbsent{name,res}*  RefList{names,locnames}  Done                                             *)
 (* `std` is what the reference reader (TLC evaluating RefReadFile under Std, payloads inflated by   *)
 (* Python zlib/bz2) obtained; `devs` the same under every combination of the named deviations.     *)
 (*                                                                                                *)
@@ -89,6 +90,16 @@ T_RefFile ==
   /\ vseen' = vseen \cup {Ev.name}
   /\ UNCHANGED <<vphase, vdir, vcfg, vwant, vtwin>>
 
+\* a file the library was asked to add under a NON-neutral locale (possibly next to a neutral file of the same
+\* name): the reference looks it up by (name, locale); the hash entry must carry exactly that locale, platform 0,
+\* and the content put in under that locale
+T_RefLocFile ==
+  /\ Ev.ev = "RefLocFile" /\ vphase = "open" /\ vdir = 1
+  /\ IF /\ Gives(Ev.std, Ev.want) /\ Ev.fsize = Ev.want.len /\ Ev.rawsame \in {"n/a", "same"}
+        /\ Ev.locale # 0 /\ Ev.entlocale = Ev.locale /\ Ev.entplatform = 0
+     THEN TRUE ELSE Bad("unexplained")
+  /\ UNCHANGED <<vphase, vdir, vcfg, vwant, vtwin, vseen>>
+
 T_RefAbsent ==
   /\ Ev.ev = "RefAbsent" /\ vphase = "open" /\ vdir = 1
   /\ IF Ev.name \notin DOMAIN vwant /\ Ev.res = "notfound" THEN TRUE ELSE Bad("unexplained")
@@ -97,7 +108,7 @@ T_RefAbsent ==
 \* the (listfile) decoded by the reference names exactly the files put in (plus itself)
 T_RefList ==
   /\ Ev.ev = "RefList" /\ vphase = "open" /\ vdir = 1
-  /\ IF Ev.res = "ok" /\ SeqSet(Ev.names) = DOMAIN vwant \cup {ListfileName} THEN TRUE ELSE Bad("unexplained")
+  /\ IF Ev.res = "ok" /\ SeqSet(Ev.names) = DOMAIN vwant \cup {ListfileName} \cup SeqSet(Ev.locnames) THEN TRUE ELSE Bad("unexplained")
   /\ UNCHANGED <<vphase, vdir, vcfg, vwant, vtwin, vseen>>
 
 \* ---------------------------------------------------------------------------------------------
@@ -163,7 +174,7 @@ Init == tl = 1 /\ vphase = "idle" /\ vdir = 0 /\ vcfg = [ver |-> -1, shift |-> -
         /\ vtwin = [name |-> "", len |-> -1, tok |-> ""]
 Next == /\ tl <= Len(Rec)
         /\ tl' = tl + 1
-        /\ \/ T_Reset \/ T_Build \/ T_RefOpen \/ T_RefFile \/ T_RefAbsent \/ T_RefList
+        /\ \/ T_Reset \/ T_Build \/ T_RefOpen \/ T_RefFile \/ T_RefLocFile \/ T_RefAbsent \/ T_RefList
            \/ T_Open \/ T_Read \/ T_Absent \/ T_List \/ T_Done \/ T_Skip
 
 Accepted == LET d == TLCGet("stats").diameter IN
